@@ -115,29 +115,36 @@ def attrsObsEq (m i : List (String × String)) : Bool :=
 
 /-! ### which properties observe which difference -/
 
+/-- the property whose theorems describe the handler of a request kind: a difference between
+    model and implementation in accept/refuse, messages or resulting state of such a request
+    breaks the tie between those theorems and the code.  The cross-cutting properties (C01,
+    C05, C09, C10, C11, C17) are decided by their predicates on the implementation's own data,
+    never by a difference alone. -/
 def execKindProps : ExecMsg → List String
-  | .executeMatch _ _ _ _ => ["C02", "C03", "C09"]
-  | .cancelAsk _ => ["C04", "C08"]
-  | .expireAsk _ => ["C04", "C08"]
-  | .rejectAsk _ _ => ["C04", "C08"]
-  | .cancelBid _ => ["C04", "C09"]
-  | .expireBid _ => ["C04", "C09"]
-  | .rejectBid _ _ => ["C04", "C09"]
-  | .createAsk _ _ _ _ _ => ["C07", "C08"]
-  | .createBid _ _ _ _ _ _ _ => ["C07", "C09"]
+  | .executeMatch _ _ _ _ => ["C02", "C03"]
+  | .cancelAsk _ => ["C04"]
+  | .expireAsk _ => ["C04"]
+  | .rejectAsk _ _ => ["C04"]
+  | .cancelBid _ => ["C04"]
+  | .expireBid _ => ["C04"]
+  | .rejectBid _ _ => ["C04"]
+  | .createAsk _ _ _ _ _ => ["C07"]
+  | .createBid _ _ _ _ _ _ _ => ["C07"]
   | .approveAsk _ _ _ => ["C08"]
   | .modify _ _ _ _ _ _ _ _ => ["C12"]
 
-def guarded : ExecMsg → Bool
-  | .createAsk _ _ _ _ _ => false
-  | .createBid _ _ _ _ _ _ _ => false
-  | _ => true
-
 def acceptProps (m : ExecMsg) : List String :=
-  execKindProps m ++ (if guarded m then ["C05"] else []) ++ ["C01", "C10", "C11", "C17"]
+  match m with
+  | .executeMatch _ _ _ _ => ["C03"]
+  | _ => execKindProps m
 def msgProps (m : ExecMsg) : List String :=
-  (match m with | .modify _ _ _ _ _ _ _ _ => [] | _ => execKindProps m) ++ ["C01", "C10"]
-def stateProps (m : ExecMsg) : List String := execKindProps m ++ ["C01", "C11"]
+  match m with
+  | .executeMatch _ _ _ _ => ["C02"]
+  | _ => execKindProps m
+def stateProps (m : ExecMsg) : List String :=
+  match m with
+  | .executeMatch _ _ _ _ => ["C02"]
+  | _ => execKindProps m
 
 def unmodelledCall : CallKind → Bool
   | .exec c | .probe c =>
@@ -203,7 +210,7 @@ def C07_bidMustAccept (env : Env) (s : State) (c : Call) (id base : String) (fee
   (match Dec.parse price, bidRate s.info with
    | some p, some rate => exactMul p size && exactMul rate quoteSize
    | _, _ => false) &&
-  (let due := quoteSize + (match fee with | some f => f.amount | none => 0)
+  (let due := quoteSize + feeAmt fee
    if env.restricted quote then c.funds.isEmpty else decide (c.funds = [⟨quote, due⟩]))
 
 /-! ### per-step judgement -/
